@@ -48,7 +48,7 @@ theorem vecElems_congr (d : Dict) (sz : Nat) (hss : d.ssize = sz) (dOff : Nat) (
 theorem vec_valid_inv (d : Dict) (sz : Nat) (hss : d.ssize = sz) (l : LenTy) (s : Slice)
     (hlen : max l.size d.align ≤ s.len) (hv : (vecD d l).validateU s = .ok ()) :
     ∃ len slots, l.readU s = .ok len ∧ vecSlots d l s.len = .ok slots ∧ len ≤ min slots l.max ∧
-      vecElems d (max l.size d.align) s len 0 = .ok () := by
+      (d.ssize ≠ 0 → vecElems d (max l.size d.align) s len 0 = .ok ()) := by
   simp only [vecD] at hv
   cases hr : l.readU s with
   | fault f => simp [hr] at hv
@@ -61,7 +61,9 @@ theorem vec_valid_inv (d : Dict) (sz : Nat) (hss : d.ssize = sz) (l : LenTy) (s 
       simp only [hr, hsl, Res.bind_eq, Res.bind_ok] at hv
       split at hv
       · simp at hv
-      · exact ⟨len, slots, rfl, rfl, by omega, hv⟩
+      · refine ⟨len, slots, rfl, rfl, by omega, ?_⟩
+        intro hnz
+        simpa [hnz] using hv
 
 section VecArith
 variable (dOff al sz : Nat) (hapos : 0 < al) (hdo : dOff % al = 0)
@@ -148,20 +150,21 @@ theorem vec_frame (d : Dict) (hd : Law d) (sz : Nat) (hsz : d.sized = some sz) (
       have hr' : l.readU s' = .ok len := by
         rw [readU_congr l s s' ha (by omega) (by omega) (take_take_eq hb (by omega))]; exact hr
       refine ⟨?_, hsizeV s' len (by omega) hr'⟩
-      have helems : vecElems d (max l.size d.align) s' len 0 = .ok () := by
+      have helems : d.ssize ≠ 0 → vecElems d (max l.size d.align) s' len 0 = .ok () := by
+        intro hnz
         rw [vecElems_congr d sz hss _ s s' ha _ hb hzs hl' len 0 (by rw [Nat.zero_add, Nat.mul_comm]; omega)]
-        exact hel
+        exact hel hnz
       rw [vecSlots_ok d l s.len hlen, hss] at hsl
       simp only [vecD, hr', Res.bind_eq, Res.bind_ok, vecSlots_ok d l s'.len (by omega), hss]
       by_cases hz : sz = 0
       · simp only [hz, if_true] at hsl ⊢
         cases hsl
         have : ¬ len > min usizeMax l.max := by omega
-        simp only [this, if_false]; exact helems
+        simp only [this, if_false]
       · simp only [hz, if_false]
         have := vec_len_le_slots _ _ sz hapos hdo hz hl'
         have hcap' : ¬ len > min (floorMul (s'.len - max l.size d.align) (max l.align d.align) / sz) l.max := by omega
-        simp only [hcap', if_false]; exact helems
+        simp only [hcap', if_false]; exact helems (by rw [hss]; exact hz)
     pre := by
       intro s z hal hlen hv hz k hk
       simp only [vecD] at hal hlen
